@@ -54,7 +54,52 @@ def shards(tier, seed):
     # lines of one kind) must not change how the next chart is read
     out += [{"name": f"volume-{i}", "kind": "volume", "texts": 6, "history": 60 if tier == "quick" else 400, "thread_rounds": 0,
              "drum_parses": 23 if tier == "quick" else 60} for i in range(1 if tier == "quick" else 4)]
+    # capacity: a probe chart re-read after exactly k charts of k OTHER resolutions, for k around the usual sizes of bounded memo
+    # tables (32, 64, 128, 256, 512): what is evicted, trimmed or reused at a table's capacity must not reach the next chart
+    out += [{"name": f"capacity-{i}", "kind": "capacity", "texts": 0, "history": 0, "thread_rounds": 0, "part": i} for i in range(2 if tier == "quick" else 6)]
     return out
+
+
+CAPACITIES = [31, 32, 33, 63, 64, 65, 127, 128, 129, 255, 256, 257, 511, 512, 513]
+
+
+def capacity_probe(rec, shard, seed):
+    """The probe chart's outcome hinges on values derived per resolution (HOPO window: note pairs exactly at and one tick beyond the
+    rounded eighth-triplet), per tempo and per sustain shape. It is read first; then, for each k, k small charts with k DISTINCT other
+    resolutions (tempi, sustain shapes) are read and the probe is read again: every reading must show the first reading's chart."""
+    res = [192, 480, 200, 96, 500, 120][shard["part"] % 6]
+    thr = model.hopo_threshold(res)
+    ticks_, t = [], 0
+    for j in range(10):
+        ticks_.append(t)
+        t += thr if j % 2 == 0 else thr + 1
+    groups = [{"tick": t_, "lanes": {str(j % 5): (j * 7) % 5, str((j + 2) % 5): j % 3} if j % 3 == 2 else {str(j % 5): 0}, "open": None, "forced": False, "tap": False}
+              for j, t_ in enumerate(ticks_)]
+    probe = gen.render_truth({"resolution": res, "tempos": [[0, gen.usable_n(120000)], [thr, gen.usable_n(93000)]], "timesigs": [[0, 4, None]],
+                              "tracks": {"GUITAR/EXPERT": {"groups": groups, "phrases": [[0, thr]]}}})["text"]
+    first = outcome_of(probe)
+    rec.ev()
+    if not first["ok"]:
+        rec.violation("history-dependence", f"the probe chart was rejected: {first}", {"kind": "capacity", "probe": probe, "k": 0}, "probe-rejected")
+        return
+    other = [r for r in range(7, 7 + 3 * (max(CAPACITIES) + 40), 3) if r != res]
+    used = 0
+    for k in CAPACITIES[shard["part"] % 2::2] if os.environ.get("VERIF_TIER") == "quick" else CAPACITIES:
+        for j in range(k):
+            r_ = other[(used + j) % len(other)]
+            small = (f"[Song]\n{{\n  Resolution = {r_}\n}}\n[SyncTrack]\n{{\n  0 = TS 4\n  0 = B {gen.usable_n(60000 + 1000 * ((used + j) % 400))}\n}}\n[Events]\n{{\n}}\n"
+                     f"[ExpertSingle]\n{{\n  0 = N 0 {j + 1}\n  0 = N 1 {j % 7}\n  {max(1, r_ // 3)} = N 2 0\n  {2 * max(1, r_ // 3) + 1} = N 3 0\n}}\n")
+            harness.parse(small)
+        used += k
+        again = outcome_of(probe)
+        rec.ev()
+        d = diff(first, again)
+        if d:
+            rec.violation("history-dependence", f"the probe chart (resolution {res}) read again after exactly {k} charts of {k} other resolutions shows another chart than "
+                          f"its first reading in this process: {d}", {"kind": "capacity", "probe": probe, "k": k, "part": shard["part"]}, "parse-depends-on-history")
+            return
+        rec.cls(f"probe_reread_after_{k}_other_resolutions")
+    rec.mon("small_charts_read_between_probe_readings", used)
 
 
 def volume_texts(rng):
@@ -584,6 +629,11 @@ def cache_report(rec):
 
 def run_shard(shard, rec, tier, seed):
     harness.setup(with_contracts=False)
+    if shard.get("kind") == "capacity":
+        capacity_probe(rec, shard, seed)
+        cache_report(rec)
+        harness.finish(rec)
+        return
     rng = harness.rng_for(seed, ID, shard["name"], 0)
     texts = corpus(rng, shard["texts"])
     if shard.get("kind") == "volume":
@@ -646,6 +696,10 @@ def finalize(agg, tier):
 
 def replay(case, rec):
     harness.setup(with_contracts=False)
+    if case.get("kind") == "capacity":
+        os.environ["VERIF_TIER"] = "thorough"
+        capacity_probe(rec, {"part": case.get("part", 0)}, 0)
+        return
     texts = [{"text": t["text"], "want": t["want"], "path_bytes_hex": t.get("path_bytes_hex"), "kind": "replay", "res": 0} for t in case["texts"]]
     base = baselines(texts)
     if case["kind"] == "history":
